@@ -14,7 +14,7 @@ RULE = ("worlds from dsim.world (1-8 stations, chains of sessions per station wi
         "station reuse or >=1 period with >=3 events; distinct = distinct per-period history signature "
         "<event kinds, invoked?, fault, #connected, #charging>")
 PROBES = ["back_to_back", "pileup3", "recompute_only_period", "resumed", "stay1", "idle_prefix", "crash_last_period",
-          "constraint_free_sorted", "custom_event_in_run", "resume_json"]
+          "constraint_free_sorted", "custom_event_in_run", "resume_json", "stochastic_network_world", "stochastic_json_resume"]
 FAULT_DIMENSION = "scheduler crash at arbitrary calls (incl. last period), resumed by rerun or via a JSON save/load of the simulator"
 ASSUMPTIONS = ["sessions of one station do not overlap (generator guarantees it)",
                "plug-in event timestamp == ev.arrival",
@@ -25,7 +25,14 @@ PROFILE = world.profile(stations=(1, 8), faults={"crash": 0.5}, resume_modes=["r
                         party={"scripted": 4, "uncontrolled": 2, "greedy": 2, "rr": 1})
 
 
+P_STOCH = world.profile(net="stochastic", stations=(1, 4), faults={"crash": 0.8}, resume_modes=["rerun", "json_str", "json_file"],
+                        party={"scripted": 2, "uncontrolled": 3, "greedy": 2}, evse_kinds={"cont": 3, "finite": 2}, stoch_early=0.3)
+
+
 def gen(rs, tier):
+    if rs % 8 == 0:
+        # a ChargingNetwork subclass (contrib StochasticNetwork): event-level clauses only (who sits where is C19's business)
+        return world.gen_world(rs, P_STOCH)
     P = PROFILE
     if tier == "thorough" and rs % 10 == 0:
         P = dict(P, stations=(4, 12), horizon=(20, 120), sessions_cap=30)
@@ -61,6 +68,10 @@ def check(sc):
     out.probe("crash_last_period", sum(1 for r in tr.resumes if r["queue_empty"]))
     out.probe("constraint_free_sorted", 1 if (not sc["network"]["constraints"] and sc["party"]["kind"] in ("greedy", "rr")) else 0)
     out.nontrivial = b2b > 0 or pile > 0
+    stoch = sc["network"]["kind"] == "stochastic"
+    if stoch:
+        out.probe("stochastic_network_world")
+        out.probe("stochastic_json_resume", sum(1 for r in tr.resumes if r["mode"] != "rerun"))
     if not ok:
         return out
 
@@ -97,7 +108,7 @@ def check(sc):
         out.add("C01/periods", "periods executed %s expected 0..%d" % ([p["t"] for p in tr.periods][:20], last_t))
     for p in tr.periods:
         t = p["t"]
-        for st, v in p["st"].items():
+        for st, v in ({} if stoch else p["st"]).items():
             exp = None
             for s in by_station.get(st, []):
                 if s["arrival"] <= t < s["departure"]:
@@ -118,10 +129,10 @@ def check(sc):
         t = c["t"]
         for s in c["sessions"]:
             m = sess.get(s["session_id"])
-            if m is None or not (m["arrival"] <= t < m["departure"]) or s["station_id"] != m["station"]:
+            if m is None or not (m["arrival"] <= t < m["departure"]) or (s["station_id"] != m["station"] and not stoch):
                 out.add("C01/party_saw_unconnected", "t=%d saw %s" % (t, s))
     # uncontrolled + unfinished demand: first connected period charges (connected EV *can* receive current)
-    if sc["party"]["kind"] == "uncontrolled" and not sc["faults"]:
+    if sc["party"]["kind"] == "uncontrolled" and not sc["faults"] and not stoch:
         ids = [s["id"] for s in sc["network"]["stations"]]
         for s in sc["sessions"]:
             a = s["arrival"]
